@@ -296,6 +296,22 @@ def run(ctx: Ctx) -> None:
             if ch["outputs"]:
                 ch["outputs"] = ch["outputs"][:-1]
                 neg.append(q)
+            q3 = copy.deepcopy(p)       # the signature term of one node loses its last output (or gains an input): Signatures clause
+            q3["name"] = p["name"] + "|sig-arity|RegionsMirrorHierarchy/PortsAreValuePorts/MetadataCarried/SymbolParams/ConstInlined/Signatures"
+            t3 = next(c for c in q3["exp"]["children"] if c["op"] == "DefineFunc" and c["regions"] and c["regions"][0]["children"])
+            c3 = t3["regions"][0]["children"][0]
+            if c3["sig"].get("k") == "fn":
+                if c3["sig"]["outs"]:
+                    c3["sig"]["outs"] = c3["sig"]["outs"][:-1]
+                else:
+                    c3["sig"]["ins"] = c3["sig"]["ins"] + [{"k": "ty", "s": "bogus"}]
+                neg.append(q3)
+            q4 = copy.deepcopy(p)       # the region's type loses track of the function body's inputs
+            q4["name"] = p["name"] + "|region-sig|RegionsMirrorHierarchy/PortsAreValuePorts/MetadataCarried/SymbolParams/ConstInlined/Signatures"
+            t4 = next(c for c in q4["exp"]["children"] if c["op"] == "DefineFunc" and c["regions"] and c["regions"][0]["children"])
+            if t4["regions"][0]["sig"].get("k") == "fn":
+                t4["regions"][0]["sig"]["ins"] = t4["regions"][0]["sig"]["ins"] + [{"k": "ty", "s": "bogus"}]
+                neg.append(q4)
             q2 = copy.deepcopy(p)
             q2["name"] = p["name"] + "|rename-link|LinkPartition"
             t2 = next(c for c in q2["exp"]["children"] if c["op"] == "DefineFunc" and c["regions"] and c["regions"][0]["children"])
